@@ -152,6 +152,7 @@ func checkC08(c C08Case) Verdict {
 		tmpl, d, cfg int
 	}
 	first := map[key]string{}
+	refOut := map[int]ref.Result{}
 	config := 0
 	repeats := 0
 	var failure error
@@ -187,6 +188,21 @@ func checkC08(c C08Case) Verdict {
 				errText = "error" // the text quotes goroutine stacks for runtime errors: only the fact is compared
 			}
 			result = fmt.Sprintf("out=%q err=%s panic=%v", buf.String(), errText, p != nil)
+			// a render is a pure function of (template, data): it must also equal what the reference
+			// interpreter defines, whatever was rendered before (in this history or earlier in the process)
+			if op.Op == "render" && di == ti && len(c08Configs[config]) == 0 && p == nil {
+				want, cached := refOut[ti]
+				if !cached {
+					want = ref.Render(&c.Prog.Prog, fqs[ti], c.Prog.AllData[fqs[ti]], c.Prog.IJ, c.Prog.HasIJ)
+					refOut[ti] = want
+				}
+				switch {
+				case want.Status == ref.OK && (rerr != nil || ref.CanonRefs(buf.String()) != ref.CanonRefs(want.Out)):
+					failure = fmt.Errorf("step %d: render of %s gives %q (error %v); the language defines %q - the result depends on what was rendered before", i, fqs[ti], trunc(buf.String(), 400), rerr != nil, trunc(want.Out, 400))
+				case want.Status == ref.Valueless && rerr == nil:
+					failure = fmt.Errorf("step %d: render of %s returned no error for a valueless expression", i, fqs[ti])
+				}
+			}
 		case "js", "jsMsgs":
 			fi := op.Tmpl % len(cb.reg.SoyFiles)
 			k.tmpl = fi
